@@ -2,7 +2,7 @@
 
 usage: python -m vlib.c17_child infile outfile
 infile : {"recipes": [...], "pickles": [base64|null...], "order": "reversed"|"forward"}
-outfile: {"built": [token...], "unpickled": [token|null...], "hashseed": str, "pid": int}
+outfile: {"built": [token...], "unpickled": [token|null...], "built_canon": [hex|null...], "unpickled_canon": [hex|null...], ...}
 A token is the hex nutils_hash, or 'R:<exception type>' (refused), 'M:<type>' (result is
 not 20 bytes), 'U:<exception type>' (recipe could not be built).
 """
@@ -21,13 +21,21 @@ def token(v):
     return h.hex()
 
 
+def canon_hex(v):
+    from vlib import c17_canon as K
+    try:
+        return K.canon(v).hex()
+    except Exception:
+        return None
+
+
 def built_token(r):
     from vlib import c17_corpus as G
     try:
         v = G.build(r)
     except Exception as e:
-        return 'U:' + type(e).__name__
-    return token(v)
+        return 'U:' + type(e).__name__, None
+    return token(v), canon_hex(v)
 
 
 def main(argv):
@@ -42,22 +50,26 @@ def main(argv):
     if job.get('order') == 'reversed':
         idx.reverse()
     built = [None] * len(recipes)
+    built_canon = [None] * len(recipes)
     for i in idx:
-        built[i] = built_token(recipes[i])
-    unp = []
+        built[i], built_canon[i] = built_token(recipes[i])
+    unp, unp_canon = [], []
     for p in job.get('pickles', []):
         if p is None:
             unp.append(None)
+            unp_canon.append(None)
             continue
         try:
             v = pickle.loads(base64.b64decode(p))
         except Exception as e:
             unp.append('U:' + type(e).__name__)
+            unp_canon.append(None)
             continue
         unp.append(token(v))
+        unp_canon.append(canon_hex(v))
     tmp = outfile + '.tmp'
     with open(tmp, 'w') as f:
-        json.dump(dict(built=built, unpickled=unp, hashseed=os.environ.get('PYTHONHASHSEED'), pid=os.getpid(),
+        json.dump(dict(built=built, unpickled=unp, built_canon=built_canon, unpickled_canon=unp_canon, hashseed=os.environ.get('PYTHONHASHSEED'), pid=os.getpid(),
                        str_hash=hash('c17 probe string')), f)
     os.replace(tmp, outfile)
 
